@@ -138,6 +138,15 @@ FACTS = {
             (["paths", "/swapped", "get", "responses", "404", "content", "application/json", "schema", "properties", "second", "type"], "boolean"),
         ],
     },
+    "explicit-references-to-atomic-schemas": {
+        "files": {"main.oal": "let @id = int `minimum: 1`;\nlet @code = str `pattern: \"[A-Z]+\"`;\nlet @self = /items/{ 'id @id };\nlet @item = { 'id! @id, 'code @code, 'self @self };\nres /items on get -> <[@item]>;\n"},
+        "facts": [
+            (["components", "schemas"], ("keys", ["id", "code", "self", "item"])),
+            (["components", "schemas", "id", "minimum"], 1),
+            (["components", "schemas", "code", "pattern"], "[A-Z]+"),
+            (["components", "schemas", "item", "properties", "id", "$ref"], "#/components/schemas/id"),
+        ],
+    },
     "annotations-in-place": {
         "files": {"main.oal":
                   "let n = int `minimum: 1, maximum: 9, example: 5`;\nlet s = str `pattern: \"[a-z]+\", minLength: 2, maxLength: 8, format: \"slug\", enum: [ab, cd]`;\n"
@@ -695,6 +704,13 @@ def check():
         o.inconc(str(exn)[:120])
 
     uri_append_lemmas(o, L, S, MC, E, structural, on_sat)
+
+    # a declared reference is in the document: whatever reference_schema points at, all_components registers (shared with C03)
+    try:
+        import props.c03 as c03
+        c03.ref_closure_lemmas(o, L, S, MO, E, structural, on_sat)
+    except Exception as exn:
+        o.inconc("ref closure lemmas: %s" % str(exn)[:120])
 
     o.samples = [{"query": q["name"], "verdict": q["verdict"]} for q in o.queries[:16]]
     rdir = new_replay_dir("C02", "facts")
